@@ -105,6 +105,7 @@ def exc_fail(exc: BaseException, op: str = "") -> Fail:
 # not change them (results that share a scratch buffer, a cache entry handed out without a copy, ...). Checked in call().
 _RECENT: list = []
 _RECENT_MAX = 6
+_CUR = {"case": None, "seq": None}  # the case being run; "seq" is set when a result of an EARLIER case was changed by this one
 
 
 def reset_recent() -> None:
@@ -135,14 +136,17 @@ def call(op: str, f: Callable, *a, **k):
         raise
     except Exception as e:  # noqa: BLE001
         return None, exc_fail(e, op)
-    for prev_op, arrays, copies in ([] if os.environ.get("VERIF_NO_RECENT_GUARD") else _RECENT):  # switch: sensitivity experiments only
+    for prev_op, arrays, copies, prev_case in ([] if os.environ.get("VERIF_NO_RECENT_GUARD") else _RECENT):  # switch: sensitivity experiments only
         for x, c in zip(arrays, copies):
             if x.shape != c.shape or x.dtype != c.dtype or not _np.array_equal(x, c, equal_nan=(x.dtype.kind in "fc")):
                 _RECENT.clear()
+                if prev_case is not _CUR["case"] and prev_case is not None and _CUR["case"] is not None:
+                    # the result belongs to an earlier case: the failure is a property of the two cases in this order
+                    _CUR["seq"] = {"__sequence__": [prev_case, _CUR["case"]]}
                 return None, Fail("MISMATCH", f"earlier-result-changed-by-later-call:{prev_op.split(':')[0]}->{op.split(':')[0]}", f"result of {prev_op} changed during {op}")
     arrays = _result_arrays(r)
     if arrays:
-        _RECENT.append((op, arrays, [x.copy() for x in arrays]))
+        _RECENT.append((op, arrays, [x.copy() for x in arrays], _CUR["case"]))
         if len(_RECENT) > _RECENT_MAX:
             _RECENT.pop(0)
     return r, None
@@ -181,8 +185,21 @@ def _normalise(res: Any, case: Any) -> list:
 
 
 def run_case(law: Law, case: Any) -> tuple[str, list]:
-    """-> ('ok'|'skip'|'fail', [Fail...]) for one non-batch case."""
-    reset_recent()
+    """-> ('ok'|'skip'|'fail', [Fail...]) for one non-batch case. A case {"__sequence__": [c1, c2]} runs c1 and then c2 in a
+    fresh history and reports the outcome of c2 (failures that need an earlier call: a result of c1 changed during c2).
+    Results of the preceding generated cases stay under observation (see call()); taken_case() tells which case to store."""
+    if isinstance(case, dict) and "__sequence__" in case:
+        reset_recent()
+        status, fails = "skip", []
+        for sub in case["__sequence__"]:
+            status, fails = _run_single(law, sub)
+        _CUR["seq"] = None
+        return status, fails
+    return _run_single(law, case)
+
+
+def _run_single(law: Law, case: Any) -> tuple[str, list]:
+    _CUR["case"], _CUR["seq"] = case, None
     try:
         res = law.run(case)
     except Skip:
@@ -195,6 +212,13 @@ def run_case(law: Law, case: Any) -> tuple[str, list]:
         raise HarnessError("Batch result in run_case")
     fails = _normalise(res, case)
     return ("fail" if fails else "ok"), fails
+
+
+def taken_case(case: Any) -> Any:
+    """the case to store with the failures of the run_case call that just returned: the case itself, or the two-case sequence
+    when the failure was a result of the previous case changed by this one"""
+    seq, _CUR["seq"] = _CUR["seq"], None
+    return seq if seq is not None else case
 
 
 def _new_result(law: Law) -> dict:
@@ -214,7 +238,7 @@ def _new_result(law: Law) -> dict:
     }
 
 
-def _record(res: dict, law: Law, case: Any, status: str, fails: list) -> None:
+def _record(res: dict, law: Law, case: Any, status: str, fails: list, fail_case: Any = None) -> None:
     if status == "skip":
         res["skipped"] += 1
         try:
@@ -237,7 +261,7 @@ def _record(res: dict, law: Law, case: Any, status: str, fails: list) -> None:
         res["samples"].append(case)
     for f in fails:
         if len(res["fails"]) < 4000:
-            res["fails"].append((f.sig(law.name), case, f.detail))
+            res["fails"].append((f.sig(law.name), case if fail_case is None else fail_case, f.detail))
 
 
 def drive_law(law: Law, tier: str, seed: int, shard_idx: int, n_examples: int) -> dict:
@@ -254,6 +278,7 @@ def drive_law(law: Law, tier: str, seed: int, shard_idx: int, n_examples: int) -
         for j, case in enumerate(law.enumerate(tier, lseed0)):
             if j % law.enum_shards != shard_idx % law.enum_shards:
                 continue
+            _CUR["case"], _CUR["seq"] = case, None
             try:
                 r = law.run(case)
             except Skip:
@@ -262,7 +287,7 @@ def drive_law(law: Law, tier: str, seed: int, shard_idx: int, n_examples: int) -
             except HarnessError:
                 raise
             except Exception as e:  # noqa: BLE001
-                _record(res, law, case, "fail", [exc_fail(e)])
+                _record(res, law, case, "fail", [exc_fail(e)], taken_case(case))
                 continue
             if isinstance(r, Batch):
                 res["evaluations"] += r.evaluations
@@ -277,7 +302,7 @@ def drive_law(law: Law, tier: str, seed: int, shard_idx: int, n_examples: int) -
                         res["fails"].append((f.sig(law.name), c, f.detail))
             else:
                 fails = _normalise(r, case)
-                _record(res, law, case, "fail" if fails else "ok", fails)
+                _record(res, law, case, "fail" if fails else "ok", fails, taken_case(case))
         if law.exhaustive is not None:
             res["exhaustive"] = law.exhaustive(tier)
     else:
@@ -299,7 +324,7 @@ def drive_law(law: Law, tier: str, seed: int, shard_idx: int, n_examples: int) -
         @given(strat)
         def body(case):
             status, fails = run_case(law, case)
-            _record(res, law, case, status, fails)
+            _record(res, law, case, status, fails, taken_case(case))
 
         body()
     res["wall_s"] = time.time() - t0
@@ -689,7 +714,15 @@ def replay(pid, mod, laws, ledger, path) -> int:
             print("HARNESS-ERROR law has no replay function")
             return 2
         fails = replay_fn(case)
+    elif isinstance(case, dict) and "__sequence__" in case:
+        reset_recent()
+        status, fails = run_case(law, case)
+        if status == "skip":
+            print(f"{pid} replay: case outside domain (skip)")
+            return 0
     else:
+        reset_recent()
+        _CUR["case"], _CUR["seq"] = case, None
         try:
             r = law.run(case)
         except Skip:
